@@ -504,4 +504,22 @@ theorem xarray_int_key (k : Int) (n : Nat) :
     Xarray.axisPlan (.idx k) n = some (Gen.xarray_int_key k n, Gen.xarray_int_key k n + 1, none) := by
   unfold Xarray.axisPlan Gen.xarray_int_key; rfl
 
+/-! ### dispatch: which loader / copy path / queueing a call takes -/
+
+theorem dispatch (g : Geo) (minZ maxZ : Nat) :
+    (Gen.dispatch_inline g.b0 g.b1 ↔ Reader.isDefault g = true)
+    ∧ (Gen.dispatch_crossline g.b0 g.b1 ↔ Reader.isDefault g = true)
+    ∧ (Gen.dispatch_zslice g.b0 g.b1 ↔ Reader.isDefault g = true)
+    ∧ (Gen.dispatch_zslice_adv g.b2 ↔ (g.b2 == 4) = true)
+    ∧ (Gen.dispatch_subvolume g.b0 g.b1 ↔ Reader.isDefault g = true)
+    ∧ (Gen.dispatch_trace2d g.b1 maxZ minZ g.P2 ↔ (g.b1 == 4 && minZ == 0 && maxZ == g.P2) = true)
+    ∧ (Gen.dispatch_crop g.b0 g.b1 ↔ (g.b0 == 4 && g.b1 == 4) = true)
+    ∧ (Gen.dispatch_producer g.b0 g.b1 ↔ (g.b0 == 4 && g.b1 == 4) = true)
+    ∧ (Gen.dispatch_numpy g.b0 g.b1 ↔ (g.b0 == 4 && g.b1 == 4) = true)
+    ∧ (Gen.dispatch_2d g.b1 ↔ (g.b1 == 4) = true) := by
+  unfold Gen.dispatch_inline Gen.dispatch_crossline Gen.dispatch_zslice Gen.dispatch_zslice_adv Gen.dispatch_subvolume
+    Gen.dispatch_trace2d Gen.dispatch_crop Gen.dispatch_producer Gen.dispatch_numpy Gen.dispatch_2d Reader.isDefault
+  simp only [Bool.and_eq_true, beq_iff_eq]
+  refine ⟨?_, ?_, ?_, ?_, ?_, ?_, ?_, ?_, ?_, ?_⟩ <;> constructor <;> intro h <;> omega
+
 end Sgz.Tie
